@@ -29,8 +29,15 @@ type Medium struct {
 	mem  *eventbus.MemoryStore
 	sub  *eventbus.MemoryStore // separate subscription store for stores that have none
 	dsh  http.Handler
-	// FailRequest, if set, is consulted by the in-process durable-streams transport.
+	// FailRequest, if set, is consulted by the in-process durable-streams transport
+	// before the server sees the request (a request that never arrives).
 	FailRequest func(r *http.Request) error
+	// FailResponse, if set, is consulted after the server has handled the request: an
+	// error here is a connection that dies after the request was applied, before the
+	// response is read.
+	FailResponse func(r *http.Request) error
+	// Requests counts the requests that reached the server, by method.
+	Requests map[string]int
 	// SQLiteOpts are appended to the options of every SQLite open.
 	SQLiteOpts []sqlite.Option
 	seq        int
@@ -116,7 +123,16 @@ func (t transport) RoundTrip(r *http.Request) (*http.Response, error) {
 		return nil, err
 	}
 	rec := httptest.NewRecorder()
+	if t.m.Requests == nil {
+		t.m.Requests = map[string]int{}
+	}
+	t.m.Requests[r.Method]++
 	t.m.dsh.ServeHTTP(rec, r)
+	if t.m.FailResponse != nil {
+		if err := t.m.FailResponse(r); err != nil {
+			return nil, err
+		}
+	}
 	resp := rec.Result()
 	resp.Request = r
 	return resp, nil
